@@ -1214,14 +1214,14 @@ func (w *World) resolveValue(v ssa.Value, st *pathState, eval func(ssa.Value) (b
 			}
 			return v
 		case *ssa.Extract:
-			if call, ok := x.Tuple.(*ssa.Call); ok {
+			if call, ok := x.Tuple.(*ssa.Call); ok && !w.shallowResolve {
 				if rv := w.helperResult(call, x.Index, st, eval, depth); rv != nil {
 					return rv
 				}
 			}
 			return v
 		case *ssa.Call:
-			if x.Common().Signature().Results().Len() == 1 {
+			if x.Common().Signature().Results().Len() == 1 && !w.shallowResolve {
 				if rv := w.helperResult(x, 0, st, eval, depth); rv != nil {
 					return rv
 				}
